@@ -33,6 +33,9 @@ RC_OK = 0x80
 RC_LEN, RC_SUM, RC_CMD, RC_ARG, RC_PORT, RC_TIMEOUT, RC_ROUTE, RC_CPU = \
     0x81, 0x82, 0x83, 0x84, 0x85, 0x86, 0x87, 0x88
 RC_P2P_NOREPLY, RC_P2P_BUSY, RC_P2P_TIMEOUT = 0x8b, 0x8d, 0x8e
+# every fatal code of the protocol (benign-first for shrinking)
+FATAL_RCS = (RC_TIMEOUT, RC_P2P_NOREPLY, RC_ARG, RC_P2P_TIMEOUT, RC_ROUTE,
+             RC_CPU, 0x89, 0x8a, 0x8c, 0x8f, RC_LEN, RC_CMD, RC_PORT)
 
 ST_DEAD, ST_PWRDN, ST_RTE, ST_WDOG, ST_INIT, ST_WAIT, ST_CMAIN, ST_RUN, \
     ST_SYNC0, ST_SYNC1, ST_PAUSE, ST_EXIT = 0, 1, 2, 3, 4, 5, 6, 7, 8, 9, 10, 11
@@ -547,8 +550,8 @@ class SimMachine(object):
             pf = pol.rate("fatal_rc")
             if pf > 0 and self.tape.chance(pf):
                 w.fault("fatal_rc")
-                reply(wire.build_reply(r, (RC_TIMEOUT, RC_P2P_NOREPLY, RC_ARG)
-                                       [self.tape.draw(3)]))
+                reply(wire.build_reply(r, FATAL_RCS[self.tape.draw(
+                    len(FATAL_RCS))]))
                 return
             ps = pol.rate("slow_machine")
             if ps > 0 and self.tape.chance(ps):
